@@ -47,8 +47,13 @@ def Oracle.toCell (o : Oracle) : Cell :=
 
 def Oracle.toLines (o : Oracle) : Nat → List (List Char) := fun w => match o[w]? with | some (some e) => e.lines | _ => []
 
+/-- a box given by content: `raw:` then 8 lines separated by `/`, each 4 code points separated by `.` -/
+def decRawBox (body : String) : Option Box :=
+  Box.ofLines? ((body.splitOn "/").map (fun l => (l.splitOn ".").filterMap (fun t => t.toNat?.map Char.ofNat)))
+
 def lookupBox (name : String) : Option (Option Box) :=
   if name == "-" then some none
+  else if name.startsWith "raw:" then (decRawBox (name.drop 4).toString).map some
   else match Gen.tableBoxes.find? (·.1 == name) with
     | some e => (Box.ofLines? e.2.2).map some
     | none => none
